@@ -914,8 +914,13 @@ class Executor:
                     z3.Or(z3.Not(z3.BVSubNoOverflow(x, y)), z3.Not(z3.BVSubNoUnderflow(x, y, True)))
             else:
                 r = x * y
-                ov = z3.Not(z3.BVMulNoOverflow(x, y, signed)) if not signed else \
-                    z3.Or(z3.Not(z3.BVMulNoOverflow(x, y, True)), z3.Not(z3.BVMulNoUnderflow(x, y)))
+                # standard SMT-LIB only (z3's bvumul_noovfl is not understood by cvc5): multiply in double width
+                if signed:
+                    wide = z3.SignExt(w, x) * z3.SignExt(w, y)
+                    ov = wide != z3.SignExt(w, r)
+                else:
+                    wide = z3.ZeroExt(w, x) * z3.ZeroExt(w, y)
+                    ov = z3.Extract(2 * w - 1, w, wide) != z3.BitVecVal(0, w)
             o = Obj("(%s, bool)" % a.ty)
             o.fields[(None, 0)] = Sym(r, a.ty)
             o.fields[(None, 1)] = Sym(ov, "bool")
